@@ -898,6 +898,9 @@ func (s *slotTables) Dump() string {
 			for _, el := range t.Elems {
 				fmt.Fprintf(&sb, "   elem %s\n", el)
 			}
+			for _, cu := range t.Cursors {
+				fmt.Fprintf(&sb, "   cursor %s from %s [%s : %s] step %s\n", cu.Root, cu.Parent, cu.InitLo, cu.InitHi, cu.Step)
+			}
 			for _, u := range t.Unresolved {
 				fmt.Fprintf(&sb, "   UNRESOLVED %s\n", u)
 			}
